@@ -1,11 +1,12 @@
 import MakoModel.Conc.Model
-/-! Concrete systems and schedules used by `returns_fresh_counterexample` and by the non-vacuity examples of C16. -/
+/-! Concrete systems and schedules used by the non-vacuity examples of C16 (two of them are the schedules on which the
+lookup used to return a stale template / `adjust_uri` used to raise; the property holds on them now). -/
 namespace MakoModel.Conc
 
 def fileFS (files : List (Dir × Uri × File)) : FS :=
   fun d u => (files.find? (fun x => x.1 == d && x.2.1 == u)).map (·.2.2)
 
-/-- the F11 scenario (repaired in /repo 7ff14da): one directory, plain dict, `filesystem_checks` on; file 0 is version 1 (mtime 98) at clock 100.
+/-- the stale-second-chance-hit scenario (finding F11, repaired in /repo 7ff14da): one directory, plain dict, `filesystem_checks` on; file 0 is version 1 (mtime 98) at clock 100.
     Thread 0: `get 0`.  Thread 1: `tick; write 0 0; get 0`. -/
 def f11Sys : Sys :=
   mkSys ⟨1, true, none⟩ (fileFS [(0, 0, ⟨1, 98, true⟩)]) 100
@@ -47,7 +48,7 @@ def firstSched : List Tid :=
   [0, 1, 2, 0, 1, 2, 0, 1, 2, 1, 1, 1, 1, 1, 0, 2, 0, 2, 0, 2, 1, 1, 0, 0, 2, 2, 2, 1, 0, 2, 1, 0,
    2, 0, 1, 2, 0, 1, 2, 0, 1, 2, 0, 1, 2, 0, 1, 2, 0, 1, 2, 0, 1, 2]
 
-/-- the F-C16-2 scenario (repaired in /repo 1492cc7): bounded lookup (`collection_size = 1`); thread 0 resolves key 0 twice, thread 1 resolves key 1 -/
+/-- the evicted-`_uri_cache`-key scenario (finding F-C16-2, repaired in /repo 1492cc7): bounded lookup (`collection_size = 1`); thread 0 resolves key 0 twice, thread 1 resolves key 1 -/
 def uriSys : Sys :=
   mkSys ⟨1, true, some 1⟩ emptyFS 100
     (fun t => if t = 0 then [.adjust 0, .adjust 0] else if t = 1 then [.adjust 1] else [])
